@@ -41,6 +41,9 @@ TRUSTED = [
     "harness: canonical form of values (harness/serial.py canon), instrumented pickler, protocol encoding",
 ]
 
+# which branch of decode a case went through: counted, but not what makes a case non-trivial
+PATH_TAGS = {"unpickle_path", "custom_decode_path", "passthrough_object", "raw_int", "separator_in_key", "digit_key"}
+
 NS = {"datetime": datetime, "decimal": decimal, "Decimal": decimal.Decimal, "inf": float("inf"), "nan": float("nan"),
       "Rec": S.Rec, "Point": S.Point, "Pair": S.Pair, "Triple": S.Triple, **S.BOX}
 
@@ -243,6 +246,8 @@ def evaluate(cases, ids: S.Ids):
             t.add("empty_container")
         if any(c in r["key"] for c in "_:"):
             t.add("separator_in_key")
+            if conf.secret:
+                t.add("signed_key_with_separator")
         if r["key"].isdigit():
             t.add("digit_key")
         if pre.startswith("pre=custom:"):
@@ -371,7 +376,7 @@ def run(chk: Check) -> int:
                       no_input=True)
         found += 1
     confs = S.all_confs()
-    n = chk.budget(1400, 40000)
+    n = chk.budget(5000, 100000)
     cases = [("corpus:" + name, conf, pairs) for name, conf, pairs in corpus_cases()]
     ncorpus = len(cases)
     for i in range(n):
@@ -385,25 +390,34 @@ def run(chk: Check) -> int:
     conf_hist: dict = {}
     type_hist: dict = {}
     samples = []
+    path_hist: dict = {}
     CH = 400
     for off in range(0, len(cases), CH):
         chunk = cases[off:off + CH]
         problems, tags, sample_lines = evaluate([(c, p) for _, c, p in chunk], ids)
+        # report real failing inputs before mere model differences
+        bad = sorted((j for j, pr in enumerate(problems) if pr), key=lambda j: (not any(k == "spec" for k, _ in problems[j]), j))
+        for j in bad:
+            if found >= 3:
+                break
+            found += 1
+            report(chk, chunk[j][1], chunk[j][2], chunk[j][0])
         for (origin, conf, pairs), probs, tg in zip(chunk, problems, tags):
             evaluations += 1
             conf_hist[conf.name()] = conf_hist.get(conf.name(), 0) + 1
             for _, v in pairs:
                 check_hyps(conf, v, hyp)
                 type_hist[type(v).__name__] = type_hist.get(type(v).__name__, 0) + 1
+            paths = {t for t in tg if t in PATH_TAGS}
+            tg = tg - PATH_TAGS
+            for t in paths:
+                path_hist[t] = path_hist.get(t, 0) + 1
             for t in tg:
                 interesting[t] = interesting.get(t, 0) + 1
             if tg:
                 distinct.add((conf.name(), pairs_src(pairs)))
             if len(samples) < 3 and tg and len(pairs_src(pairs)) < 160:
                 samples.append({"config": conf.name(), "pairs": pairs_src(pairs), "states": sorted(tg)})
-            if probs and found < 3:
-                found += 1
-                report(chk, conf, pairs, origin)
         if not samples[-1:] or "request" not in samples[-1]:
             samples.extend(sample_lines[:1])
         if found >= 3:
@@ -419,13 +433,17 @@ def run(chk: Check) -> int:
                 f"{len(S.BOX_NAMES)} registered custom classes whose names start with pickle opcodes; keys from a {len(S.KEYS)}-key text alphabet; "
                 f"round-robin over {len(confs)} configurations = {{pickle_type omitted,null,default,json}} x {{no secret, secret x md5,sha1,sha256,sum}} "
                 "through the settings url plus keyword-argument variants; json gets JSON-native shapes, top-level bytes and custom types only. "
-                "Each case is run through set/get, set_many/get_many and get with default None. Non-trivial iff it reached at least one "
-                "interesting state (see interesting_states_cases); distinct = distinct (configuration, pairs).",
+                "Each case is run through set/get, set_many/get_many and get with default None. Non-trivial iff at least one pair is adversarial for "
+                "the framing: digit-only bytes, '_'/':' in a str/bytes payload, bytes that look like a signature header, top-level bool, "
+                "empty container, custom type (in particular with newline/'.' in its payload), dataclass/named tuple, Decimal/date/duration, "
+                "a stored None read with default None, or a key containing '_'/':' under a signing configuration (see "
+                "interesting_states_cases; decode_path_cases counts which branch of decode was taken); distinct = distinct (configuration, pairs).",
         "samples": samples,
         "corpus_cases": ncorpus,
         "configurations": conf_hist,
         "value_type_histogram": type_hist,
         "interesting_states_cases": interesting,
+        "decode_path_cases": path_hist,
         "pickler_hypotheses_sampled": hyp,
         "trusted_base": TRUSTED,
         "partial": "P1-P3 for pickle/json are sampled, not proved; dill/sqlalchemy picklers are not installed; redis/diskcache backends "
